@@ -35,6 +35,9 @@ OPEN=[
  ("K-C08-torn-batch",["C08"],
   "a batch append writes its entries with independent writes (one io_uring write per entry, or sequential block writes on the mmap path) and has no commit record; recovery accepts every checksum-valid entry it finds, so a crash inside the batch call leaves a non-empty strict subset of the batch readable. The repository's own design note claims atomicity for in-process readers only. Repair needs a commit marker in the on-disk format: recorded, not repaired.",
   "batch(a,[half,half,127]) with the process dying after the first of the three writes landed -> the topic holds 1 of the 3 entries"),
+ ("K-C21-second-restart-empty",["C21","C19"],
+  "octopii's WriteAheadLog::read_all replays the log with consuming, checkpointing batch reads on a StrictlyAtOnce instance, so the first recovery makes its read position durable and every later start of the WAL-backed Raft log store (and of the peer address book) recovers nothing: empty log, no vote, no committed id, no addresses. octopii's vendored engine copy never advances an AtLeastOnce batch cursor and skips small entries at start offset 0, so neither a mode switch nor offset reads repair it in a few lines: recorded, not repaired.",
+  "append 2 entries; restart (ok); restart -> get_log_state (None, None), read_vote None, entries []"),
  ("K-C13-block-id-collision",["C13"],
   "two instances in one process number their blocks from 1 and share the process-global block tracker (first registration of an id wins): consumption by one instance is credited to the other's file, which the reclaimer then deletes with unconsumed entries in it. Repair needs the tracker keyed by (instance, block id) at ~15 call sites: recorded, not repaired.",
   "open(0,k0); open(1,k1); instance 0: 5 block-filling appends; instance 1: 5 block-filling appends, batch_read(MAX), append; reclaim tick; restart -> instance 0 has 1 of its 5 entries left"),
